@@ -298,10 +298,15 @@ def r4_caches_and_bedgraph(ctx):
 from ..through_time import make_rule as _mk_tt
 _through_time = _mk_tt("C09")
 
+def _genome_size_and_bins(ctx):
+    from .c10 import r8_bins_size_strand
+    r8_bins_size_strand(ctx)   # genome-wide arrays are sized with GenomeContext.size
+
 RULES = [
     ("C09-R1", r1_symbolic_lengths),
     ("C09-R2", r2_dense_expansion),
     ("C09-R3", r3_forwarding),
     ("C09-R4", r4_caches_and_bedgraph),
     ("C09-T1", _through_time),
+    ("C09-R5", _genome_size_and_bins),
 ]
